@@ -107,6 +107,10 @@ def judge2(case, impl, model):
     return fails, el > eff * 1000 + SLACK_HIGH_US
 
 
+SEQ_PROFILES = [(1, {"kinds": {"timer": 7, "comp": 1, "ping": 1, "chan": 0.5}, "n_setup": (3, 7), "script_prob": 0.9, "stats_prob": 0.9,
+                     "share_fd_prob": 0.0, "err_ret_prob": 0.0, "n_cmds": (12, 36)})]
+
+
 def main(tier, seed):
     chk = vlib.Check("C12", tier, seed)
     st = vlib.standard_front(chk)
@@ -180,10 +184,22 @@ def main(tier, seed):
     elif not st["proof"]["ok"] or mlog:
         chk.violation("broken", "C12 is no longer shown to hold: %s %s\nall %d measured cases were within bounds: no failing input found" %
                       (st["proof"]["failed"], mlog[:300], len(cases)), nofail=True)
-    return chk.finish()
+    # ---- third stage: timer-heavy histories on the sequential loop model under the virtual clock (dispatches between the timer
+    # operations, re-arming callbacks): a timer that is armed and due when a dispatch waits must fire in it
+    import oracles
+    import p_seqprops
+    import seqcheck
+    return seqcheck.run_seq_check("C12", tier, seed, SEQ_PROFILES, oracles.oracle_for(["C12"]), 500, 12000,
+                                  ["third stage: sequential scenarios with many timers (virtual clock): the wheel model must agree with the real wheel after "
+                                   "every history, and a due armed timer must fire in the dispatch that waits past it"],
+                                  known_classifier=p_seqprops.classify, stage_of=(chk, st))
 
 
 def replay(path):
+    if "=== " in open(path).read():
+        import oracles
+        import seqcheck
+        return seqcheck.replay("C12", path, oracles.oracle_for(["C12"]))
     cases = [l.strip() for l in open(path) if len(l.split()) == 3 and l.split()[0].lstrip("-").isdigit()]
     cases2 = [l.split(":", 1)[1].strip() for l in open(path) if l.startswith("case (timeout_ms | timer history):")]
     cases2 += [l.strip() for l in open(path) if "|" in l and l.split("|")[0].strip().isdigit() and not l.startswith("case")]
